@@ -50,6 +50,8 @@ type verifCC struct {
 	fresh      []*verifSC
 	nextFresh  int
 	failNew    bool
+	limited    bool // the factory works for okFor creations, then fails (e.g. the ClientConn starts closing)
+	okFor      int
 	created    int
 	removedCnt int
 	lastRemove balancer.SubConn
@@ -65,9 +67,10 @@ type verifErr struct{}
 func (verifErr) Error() string { return "verif" }
 
 // NewSubConn fails on an empty address list, as real gRPC 1.56 does (balancer_conn_wrappers.go),
-// or when the persistent flag failNew is set (failing connection factory).
+// when the persistent flag failNew is set (failing connection factory), or from its (okFor+1)-th
+// creation on when limited is set (a factory that starts failing).
 func (c *verifCC) NewSubConn(a []resolver.Address, o balancer.NewSubConnOptions) (balancer.SubConn, error) {
-	if len(a) == 0 || c.failNew || c.nextFresh >= len(c.fresh) {
+	if len(a) == 0 || c.failNew || (c.limited && c.created >= c.okFor) || c.nextFresh >= len(c.fresh) {
 		// (the last case is the bound of the universe: no more than len(fresh) creations per harness run)
 		return nil, verifErr{}
 	}
